@@ -52,6 +52,12 @@ Accept(e) ==
             LET j == IF e.a1 >= 0 THEN e.a1 + 1 ELSE n + e.a1 + 1 IN
             /\ Same(a, b) /\ otherSame
             /\ IF j >= 1 /\ j <= n THEN e.ret = a.fwd[j][1] /\ e.val = a.fwd[j][2] ELSE e.ret = 0
+       [] e.op = "walk" ->
+            \* both spellings of the traversal macros visit exactly the elements, front to back resp. back to front;
+            \* the unchecked end accessors agree with the checked ones; the getters report length and element size
+            LET w == e.walk  rv == [i \in 1..n |-> s[n + 1 - i]] IN
+            /\ Same(a, b) /\ otherSame
+            /\ w.fwd = s /\ w.fwd2 = s /\ w.rev = rv /\ w.rev2 = rv /\ w.acc = 1 /\ w.num = n /\ w.siz = a.siz
        [] e.op = "fore" -> Same(a, b) /\ otherSame /\ (IF n > 0 THEN e.ret = a.fwd[1][1] ELSE e.ret = 0)
        [] e.op = "back" -> Same(a, b) /\ otherSame /\ (IF n > 0 THEN e.ret = a.fwd[n][1] ELSE e.ret = 0)
        [] e.op = "sort_fore" ->
